@@ -1,6 +1,7 @@
 package main
 
 import (
+	"go/constant"
 	"fmt"
 	"go/types"
 	"strconv"
@@ -166,6 +167,23 @@ func (env *SpecEnv) eval(x SExpr) *Value {
 			return intV("(mod " + env.evalInt(n.L) + " " + env.evalInt(n.R) + ")")
 		}
 	case *SSel:
+		// pkgalias.Name: a package-level variable or constant of an imported package
+		if id, isId := n.X.(*SIdent); isId && !env.knownName(id.Name) {
+			if p := e.importByAlias(env.cf, env.pkg, id.Name); p != nil {
+				switch o := p.Scope().Lookup(n.Name).(type) {
+				case *types.Var:
+					return e.globalValue(o)
+				case *types.Const:
+					if o.Val().Kind() == constant.String {
+						return scalar(shStr, e.strLit(constant.StringVal(o.Val())))
+					}
+					if o.Val().Kind() == constant.Int {
+						return intV(intLit(o.Val().ExactString()))
+					}
+				}
+				specFail("no package-level variable or constant %s.%s", id.Name, n.Name)
+			}
+		}
 		base := env.eval(n.X)
 		if base == nilValue {
 			specFail("selection on nil")
@@ -395,7 +413,11 @@ func (env *SpecEnv) evalCall(c *SCall) *Value {
 		if v.Sh.Kind != KMapRef {
 			specFail("dom of %s", v.Sh)
 		}
-		_, dsh := e.mapDomKey(v.Sh)
+		dk, dsh := e.mapDomKey(v.Sh)
+		if env.trigger {
+			// in a quantifier pattern: the raw heap read (no nil guard)
+			return scalar(dsh, e.heapRead(env.state(), dk, dsh, v.T()).T())
+		}
 		return scalar(dsh, e.mapDom(env.state(), v))
 	case "vals":
 		v := env.eval(c.Args[0])
@@ -410,7 +432,8 @@ func (env *SpecEnv) evalCall(c *SCall) *Value {
 		if env.old != nil {
 			oa = env.old.alloc
 		}
-		return boolV(and("(>= "+scalarT(v, c)+" "+oa+")", "(> "+scalarT(v, c)+" 0)"))
+		// allocated since the old state: at or above the old allocation mark, below the current one
+		return boolV(and("(>= "+scalarT(v, c)+" "+oa+")", "(> "+scalarT(v, c)+" 0)", "(< "+scalarT(v, c)+" "+env.st.alloc+")"))
 	case "allocMark":
 		return intV(env.state().alloc)
 	case "allocated":
@@ -540,7 +563,11 @@ func (env *SpecEnv) coerce(v *Value, want *Shape, ctx string) *Value {
 		return e.zeroValue(want)
 	}
 	if v.Sh.Kind == KMapRef && want.Kind == KSet {
-		_, dsh := e.mapDomKey(v.Sh)
+		dk, dsh := e.mapDomKey(v.Sh)
+		if env.trigger {
+			// in a quantifier pattern: the raw heap read (no nil guard)
+			return scalar(dsh, e.heapRead(env.state(), dk, dsh, v.T()).T())
+		}
 		return scalar(dsh, e.mapDom(env.state(), v))
 	}
 	if len(v.L) != e.nLeaves(want) {
@@ -610,6 +637,8 @@ func (env *SpecEnv) resolveType(t *SType) *Shape {
 		return &Shape{Kind: KSet, Key: env.resolveType(t.Elem), eng: e}
 	case "map":
 		return &Shape{Kind: KTotal, Key: env.resolveType(t.Key), elem: env.resolveType(t.Elem), eng: e}
+	case "gomap":
+		return e.shapeOf(env.resolveGoType(t.String()))
 	case "name":
 		switch t.Name {
 		case "int":
@@ -659,6 +688,11 @@ func (env *SpecEnv) resolveGoType(s string) types.Type {
 		return types.NewPointer(env.resolveGoType(s[1:]))
 	case strings.HasPrefix(s, "[]"):
 		return types.NewSlice(env.resolveGoType(s[2:]))
+	case strings.HasPrefix(s, "map["):
+		// map[K]V with K a simple (bracket-free) type
+		if k := strings.Index(s, "]"); k > 0 {
+			return types.NewMap(env.resolveGoType(s[4:k]), env.resolveGoType(s[k+1:]))
+		}
 	}
 	switch s {
 	case "int":
@@ -829,4 +863,27 @@ func (e *Engine) ensureBoxStrAxiom() {
 	e.boxStrAxiom = true
 	e.axiomTerms = append(e.axiomTerms, axiomTerm{name: "unbox(box(s)) == s",
 		term: "(forall ((s Str)) (! (= (unbox.str (box.str s)) s) :pattern ((box.str s))))", src: "builtin"})
+}
+
+// knownName reports whether an identifier is bound in the spec environment (so that a
+// package alias is only tried for names that are not variables).
+func (env *SpecEnv) knownName(name string) bool {
+	if _, ok := env.names[name]; ok {
+		return true
+	}
+	if env.oldNames != nil {
+		if _, ok := env.oldNames[name]; ok {
+			return true
+		}
+	}
+	if _, ok := env.state().ghost[name]; ok {
+		return true
+	}
+	if env.goLookup != nil {
+		if _, ok := env.goLookup(name, env.inOld); ok {
+			return true
+		}
+	}
+	_, ok := env.e.consts[name]
+	return ok
 }
